@@ -1,12 +1,88 @@
 /-
-  Line-protocol handlers for C14.  `handle` receives the tokens after the property id.
+  Line-protocol handlers for C14 (searches terminate and stop at the first budget check after the
+  budget is met).
 -/
 import GEVerif.Model.Sexp
+import GEVerif.Model.Eval
+import GEVerif.Model.EvalWire
 
 namespace GEVerif.Drive.C14
-open GEVerif Sexp
+open GEVerif Sexp GEVerif.Eval GEVerif.Eval.Wire
+
+def itersOf (its : List Iter) : Nat → Iter := fun i => its.getD i ⟨[], 0, []⟩
+
+/-- decidable `Algo.Shape` on the finitely many iterations that were observed -/
+def shapeOk (a : Algo) (init : Iter) (its : List Iter) : Bool :=
+  match a with
+  | .randomSearch | .onePlusOne => its.all (fun it => it.regs.length == 1 && it.evals == 1)
+  | .hillClimbing m =>
+    (List.range its.length).all (fun i => match its[i]? with
+      | some it => if i == 0 then it.regs.length == 1 && it.evals == 1
+                   else it.regs.length == m && it.evals == m
+      | none => false)
+  | .gp pop =>
+    init.regs.length == pop && init.evals == pop &&
+    its.all (fun it => it.regs.length == pop && decide (it.evals ≤ pop))
+
+/-- the statement of the property on the counters an implementation run showed at its budget
+checks (the run returned after the last one) -/
+def propStops (n bound : Nat) (checks : List Nat) : Bool :=
+  match checks.getLast? with
+  | none => false
+  | some last =>
+    checks.dropLast.all (fun c => decide (c < n)) && decide (n ≤ last) && decide (last < n + bound)
+
+/-- target budget: `comps` = first fitness component of the best individual at each check
+(`none` while there is none); the run returned after the last check -/
+def within (v : Int) : Option Int → Bool
+  | some c => decide ((c - v).natAbs < tolerance.toNat)
+  | none => false
+
+def propTarget (v : Int) (comps : List (Option Int)) : Bool :=
+  match comps.getLast? with
+  | none => false
+  | some last => comps.dropLast.all (fun c => !within v c) && within v last
+
+/-- `AnyOf(EvaluationBudget(n), TargetFitness(v))`: stopped at the last check, the first at which
+either member is met -/
+def propAnyOf (n : Nat) (v : Int) (checks : List Nat) (comps : List (Option Int)) : Bool :=
+  checks.length == comps.length &&
+  match checks.getLast?, comps.getLast? with
+  | some lc, some lcomp =>
+    (decide (n ≤ lc) || within v lcomp) &&
+    (checks.dropLast.zip comps.dropLast).all (fun e => decide (e.1 < n) && !within v e.2)
+  | _, _ => false
+
+def parseOptInt : Sexp → Option (Option Int)
+  | atom "none" => some none
+  | s => (s.asInt?).map some
 
 def handle : List Sexp → Option Sexp
+  | [atom "run", a, b, t, init, its] => do
+      let a ← parseAlgo a
+      let b ← parseBudget b
+      let t0 ← parseTracker t
+      let init ← parseIter init
+      let its ← (← its.asList?).mapM parseIter
+      let iters := itersOf its
+      let s0 := a.start t0 init
+      match runSearch a b t0 init iters (its.length + 1) with
+      | some (m, s, res) =>
+        let checks := (List.range (m + 1)).map (fun j => (stateFrom iters 0 s0 j).count)
+        pure (list [ofNat m, ofNats checks, ofNat s.count, optId res])
+      | none =>
+        let checks := (List.range (its.length + 1)).map (fun j => (stateFrom iters 0 s0 j).count)
+        pure (list [atom "running", ofNats checks])
+  | [atom "prop_shape", a, init, its] => do
+      pure (ofBool (shapeOk (← parseAlgo a) (← parseIter init) (← (← its.asList?).mapM parseIter)))
+  | [atom "prop_stops", n, bound, checks] => do
+      pure (ofBool (propStops (← n.asNat?) (← bound.asNat?) (← checks.asNats?)))
+  | [atom "prop_target", v, comps] => do
+      pure (ofBool (propTarget (← v.asInt?) (← (← comps.asList?).mapM parseOptInt)))
+  | [atom "prop_anyof", n, v, checks, comps] => do
+      pure (ofBool (propAnyOf (← n.asNat?) (← v.asInt?) (← checks.asNats?) (← (← comps.asList?).mapM parseOptInt)))
+  | [atom "bound", a] => do
+      pure (ofNat (← parseAlgo a).bound)
   | _ => none
 
 end GEVerif.Drive.C14
